@@ -1,7 +1,8 @@
 (* Case-line interpreter for C20.  Grammar (see harness/c20/src/main.rs):
    <t><h><l><m><d> N (<tcp-res> <http-res> <tls-res>)* F <frame hex>*
    res := E | group(,group)*    group := - | <sig hex>~<match on>~<match off>
-   result: packets joined by ';', 8 groups joined by ',', group '-' or <sig hex>~<match> ; CTORERR *)
+   result: packets joined by ';', 8 groups joined by ',', group '-' or <sig hex>~<match> ; CTORERR
+   SPEC column: the same per packet, '*' where the property gives no verdict for that packet *)
 From Coq Require Import List NArith Bool.
 From Coq Require Import Strings.Byte.
 From HN Require Import Base.Bytes Model.Unified Spec.UnifiedSpec.
@@ -9,7 +10,7 @@ Import ListNotations.
 
 Definition parse_group (t : bytes) : option (option grp) :=
   if bytes_eqb t (bs "-") then Some None else
-  match split_on "~"%byte t with
+  match fsplit_on "~"%byte t with
   | [s; a; b] => Some (Some {| g_sig := s; g_on := a; g_off := b |})
   | _ => None end.
 Fixpoint parse_groups (ts : list bytes) : option (list (option grp)) :=
@@ -20,7 +21,7 @@ Fixpoint parse_groups (ts : list bytes) : option (list (option grp)) :=
 (* outer None: unparsable *)
 Definition parse_res (n : nat) (t : bytes) : option pres :=
   if bytes_eqb t (bs "E") then Some None else
-  match parse_groups (split_on ","%byte t) with
+  match parse_groups (fsplit_on ","%byte t) with
   | Some gs => if Nat.eqb (length gs) n then Some (Some gs) else None
   | None => None end.
 
@@ -56,16 +57,16 @@ Fixpoint all_some {A} (l : list (option A)) : option (list A) :=
   | None :: _ => None end.
 
 Definition run_line (l : bytes) : bytes :=
-  match split_on sp l with
+  match fsplit_on sp l with
   | c :: n :: rest =>
       match parse_cfg c, parse_packets (S (length rest)) rest with
       | Some cf, Some ps =>
           if negb (bytes_eqb n (bs "N")) then bs "BADCASE" else
           if negb (ctor_ok cf) then out3 (bs "CTORERR") (bs "CTORERR") false else
           let model := show_trace (map (fun x => match x with (t, h, tl) => analyze_packet cf t h tl end) ps) in
-          let spec := match all_some (map (fun x => match x with (t, h, tl) => spec_packet cf t h tl end) ps) with
-                      | Some outs => show_trace outs
-                      | None => bs "-" end in
+          (* per packet: the property's verdict, or * when an enabled analyzer rejected that packet *)
+          let spec := join (bs ";") (map (fun x => match x with (t, h, tl) =>
+                         match spec_packet cf t h tl with Some o => show_packet o | None => bs "*" end end) ps) in
           out3 model spec false
       | _, _ => bs "BADCASE" end
   | _ => bs "BADCASE" end.
